@@ -928,7 +928,8 @@ fn read_bits_body<const MAXQ: u16, const L: usize>() {
     std::mem::forget(rb);
 }
 
-//@ props: C04 C07 C10 C20
+//@ props: C04
+//@ heavy: yes
 //@ peer: yes
 //@ timeout: 1200
 //@ fns: client::requests::read_bits::ReadBits::handle_response, ReadBits::parse_bits_response, types::BitIterator::parse_all, <BitIterator as Iterator>::next, read_bits::Promise::success (callback arm)
@@ -976,7 +977,8 @@ fn read_regs_body<const MAXQ: u16, const L: usize>() {
     std::mem::forget(rr);
 }
 
-//@ props: C04 C07 C10 C20
+//@ props: C04
+//@ heavy: yes
 //@ peer: yes
 //@ timeout: 1200
 //@ fns: client::requests::read_registers::ReadRegisters::handle_response, types::RegisterIterator::parse_all, <RegisterIterator as Iterator>::next, read_registers::Promise::success (callback arm)
